@@ -125,7 +125,12 @@ impl Sys {
                         trees.push((w.clone(), Inv::new(&self.v, kind, args(e, (x, recv.clone(), own.clone(), oper.clone()))).with_subs(vec![sub])));
                     }
                 }
-                set_auths(e, &trees);
+                // "blanket" (see the Vault harness): the signer signs whatever the entry turns out to pull
+                if op.get("blanket").and_then(|v| v.as_bool()).unwrap_or(false) && who.contains(&oper) {
+                    e.mock_all_auths_allowing_non_root_auth();
+                } else {
+                    set_auths(e, &trees);
+                }
                 let rr = if kind == "deposit" { vc.try_deposit(&x, &recv, &own, &oper) } else { vc.try_mint(&x, &recv, &own, &oper) };
                 if let Ok(Ok(v)) = &rr { ret = Some(*v); }
                 res_of(&rr)
@@ -238,7 +243,8 @@ fn main() {
                     };
                     let signer = match kind { "donate" | "sapprove" | "aapprove" => own, _ => oper };
                     let auth: Vec<String> = if r.gen_bool(0.92) { vec![signer.to_string()] } else { vec![] };
-                    let op = json!({"op": kind, "x": x.to_string(), "recv": recv, "own": own, "oper": oper, "auth": auth});
+                    let blanket = matches!(kind, "deposit" | "mint") && r.gen_bool(0.5);
+                    let op = json!({"op": kind, "x": x.to_string(), "recv": recv, "own": own, "oper": oper, "auth": auth, "blanket": blanket});
                     let ev = sys.step(&op);
                     t.step(ev);
                 }
